@@ -814,7 +814,7 @@ class LegacyUnroll(UnrollMixin, LegacyHooks):
         return self.unroll_loop(interp, node, st)
 
 
-class Ebb3Unroll(UnrollMixin, EBB3Hooks):
+class Ebb3Unroll(EBB3Hooks):
     unroll = True
 
     def loop(self, interp, node, st):
